@@ -2,10 +2,12 @@ module verifharness
 
 go 1.18
 
-require github.com/rhysd/actionlint v0.0.0
+require (
+	github.com/bmatcuk/doublestar/v4 v4.8.0
+	github.com/rhysd/actionlint v0.0.0
+)
 
 require (
-	github.com/bmatcuk/doublestar/v4 v4.8.0 // indirect
 	github.com/fatih/color v1.18.0 // indirect
 	github.com/mattn/go-colorable v0.1.14 // indirect
 	github.com/mattn/go-isatty v0.0.20 // indirect
